@@ -9,6 +9,10 @@ import (
 
 var coll = vkit.NewCollector("C05", "TestPanics", "1-8 handlers of every kind/option combination (plain/context-aware x Once x Async x Sequential) at drawn positions, each panicking never / always / on a chosen event with a string, error, int or struct value, or one that cannot describe itself (a typed nil pointer whose Error method dereferences it, a Stringer that panics); bus with or without a panic handler (instant or taking 0.1-3 ms, a slow reporter) and with drawn ambient configuration (observability, publish hooks, a store) that must not change the outcome; 1-5 publishes then Wait, under a real-time watchdog. Oracle = model: Publish returns, every expected invocation happened (sync order exact), panic handler called exactly once per panic with the event, a func type whose last parameter is the event type (1 or 2 parameters by kind) and the value; Sequential handlers run again, panicking Once handlers stay retired, Wait returns. Non-trivial = a panicking handler that is not last or is Sequential/Once/Async, followed by a further publish.")
 
+var collRe = vkit.NewCollector("C05", "TestPanicHandlerReenters", "1-4 handlers (plain/context-aware x Async x Sequential) panicking never / always / on a chosen event, 1-4 publishes; the panic handler publishes a retry event of the same type on the same bus before it returns (directly, or from another goroutine it waits for), under a real-time watchdog. Oracle: Publish and Wait return (a hang must reproduce), the panic handler is called exactly once per panic, every handler receives every published event and every retry event exactly once. Non-trivial = at least one panic.")
+
+func TestPanicHandlerReenters(t *testing.T) { vkit.Check(t, collRe, GenRe, RunRe) }
+
 func TestMain(m *testing.M) { vkit.Main(m) }
 
 func TestPanics(t *testing.T) {
@@ -24,5 +28,5 @@ func TestPanics(t *testing.T) {
 
 func TestReplay(t *testing.T) {
 	r := vkit.NeedReplay(t)
-	vkit.ReplayCase(t, r, coll, Run)
+	_ = vkit.ReplayCase(t, r, coll, Run) || vkit.ReplayCase(t, r, collRe, RunRe)
 }
